@@ -83,6 +83,24 @@ func record(o *c.Out, suite string, k *Case) {
 		}
 	}
 	nontrivial := passWithWaiter && refusal
+	term := ""
+	if suite == "atomic" {
+		term = coqAtomic(k)
+		nontrivial = false
+		for _, p := range k.Probes {
+			if !p.Reached {
+				o.Count("atomic:probe-not-in-slow-path")
+			}
+			for _, in := range p.Inner {
+				o.Count("atomic:inside:" + in.K + ":" + in.Outcome)
+				if p.Reached && (in.Outcome == "blocked" || in.Outcome == "ran") {
+					nontrivial = true
+				}
+			}
+		}
+	} else {
+		term = coq(k)
+	}
 	o.Count(fmt.Sprintf("%s:requests=%02d", suite, len(k.Results)))
 	o.Count(fmt.Sprintf("%s:quota=%d", suite, k.Quota))
 	if rolled {
@@ -107,7 +125,7 @@ func record(o *c.Out, suite string, k *Case) {
 			o.Count("outcome:false")
 		}
 	}
-	idx := o.Case(suite, coq(k), k, nontrivial)
+	idx := o.Case(suite, term, k, nontrivial)
 	o.MonitorChecked(1)
 	for _, h := range monitor(k) {
 		h.Suite, h.Index = suite, idx
@@ -491,6 +509,7 @@ func main() {
 	o.DeclareSuite("seq", "From Verif Require Import C10.Model.", "case", "run_case")
 	o.DeclareSuite("forced", "From Verif Require Import C10.Model.", "case", "run_case")
 	o.DeclareSuite("plugin", "From Verif Require Import C10.Model C10.Plugin.", "case_plugin", "run_plugin")
+	o.DeclareSuite("atomic", "From Verif Require Import C10.Model C10.Split.", "case_atomic", "run_atomic")
 	o.Rule("seq: random sequential mock-clock histories (quota 1-3, queue size 1-4, windows 1 us/250 ms/1 s, " +
 		"arrivals with priorities 0-2 and TTLs around the window size, instants on boundary-1/boundary/boundary+1 and " +
 		"TTL deadline +-1, timers fired in deadline order), a quarter of them through StrategyBasedQueuePlugin.OnRequest; " +
@@ -519,7 +538,11 @@ func main() {
 			if err := json.Unmarshal(raw, &k); err != nil {
 				panic(err)
 			}
-			execCase(&k)
+			if k.Trace {
+				withTrace(func() { execCase(&k) })
+			} else {
+				execCase(&k)
+			}
 			record(o, suite, &k)
 		}
 		o.Finish()
@@ -538,6 +561,12 @@ func main() {
 	for i, n := 0, o.Scale(1500, 20000, 12000); i < n && !enough(); i++ {
 		record(o, "forced", genForced(o, i%5 == 4))
 	}
+	withTrace(func() {
+		scriptedAtomic(o, o.Scale(0, 1, 1) == 1)
+		for i, n := 0, o.Scale(400, 6000, 4000); i < n && !enough(); i++ {
+			record(o, "atomic", genAtomic(o))
+		}
+	})
 	scriptedPlugin(o, o.Scale(2, 3, 3))
 	for i, n := 0, o.Scale(700, 8000, 5000); i < n && !enough(); i++ {
 		recordP(o, genPluginSeq(o))
